@@ -18,7 +18,7 @@ BASE_SPEC = {
     "bounds": {"u": [-10, 10], "v": [-10, 10], "y": [-40, 40], "z": [-40, 40]},
 }
 FUNCS = ["y", "z", "y+z"]          # goal functions
-FRANGE = {"y": (-12.0, 12.0), "z": (-20.0, 20.0), "y+z": (-32.0, 32.0)}
+FRANGE = {"y": (-12.0, 12.0), "z": (-20.0, 20.0), "y+z": (-32.0, 32.0), "ny": (-40.0, 40.0)}
 
 
 def fnum(x):
@@ -36,6 +36,14 @@ def spec_for(case):
     s["param_values"] = [{"p": pv} for pv in case.get("p", [0] * s["ensemble_size"])]
     if "probabilities" in case:
         s["probabilities"] = case["probabilities"]
+    if case.get("free_alg"):
+        # every member gets a degree of freedom of its own: z = v - u + w with a free algebraic w in [-1, 1]
+        s["algebraics"] = ["y", "z", "w"]
+        s["residual"] = [BASE_SPEC["residual"][0],
+                         ["-", ["v", "z"], ["+", ["-", ["v", "v"], ["v", "u"]], ["v", "w"]]]]
+        s["bounds"] = dict(BASE_SPEC["bounds"], w=[-1, 1])
+    if case.get("aliases"):
+        s["aliases"] = case["aliases"]
     return s
 
 
@@ -46,6 +54,8 @@ def goal_function(fn, op, em, path, t=None):
         return st("y")
     if fn == "z":
         return st("z")
+    if fn == "ny":
+        return -st("y")
     return st("y") + st("z")
 
 
@@ -55,31 +65,50 @@ def goal_value(fn, res, k=None):
         v = res["y"]
     elif fn == "z":
         v = res["z"]
+    elif fn == "ny":
+        v = -res["y"]
     else:
         v = res["y"] + res["z"]
     return v if k is None else v[k]
 
 
-def make_goal(gs, times):
-    from rtctools.optimization.goal_programming_mixin_base import Goal
+def make_goal(gs, times, op=None):
+    from rtctools.optimization.goal_programming_mixin_base import Goal, StateGoal
     from rtctools.optimization.timeseries import Timeseries
 
     path = gs["path"]
     fn = gs["fn"]
     tk = gs.get("k", len(times) - 1)
 
-    class G(Goal):
-        def function(self, op, em):
-            return goal_function(fn, op, em, path, float(times[tk])) + fnum(gs.get("offset", 0))
+    if gs.get("state"):
+        # a StateGoal on a (possibly aliased) model variable: range, nominal and function key come from the problem
+        def tgt0(v):
+            if v is None:
+                return np.nan
+            if isinstance(v, list):
+                return Timeseries(np.array(times, dtype=float), np.array([fnum(x) for x in v]))
+            return fnum(v)
 
-    g = G()
+        class G(StateGoal):
+            state = gs["state"]
+            target_min = tgt0(gs.get("tmin"))
+            target_max = tgt0(gs.get("tmax"))
+
+        g = G(op)
+    else:
+        class G(Goal):
+            def function(self, op, em):
+                return goal_function(fn, op, em, path, float(times[tk])) + fnum(gs.get("offset", 0))
+
+        g = G()
     g.priority = gs["prio"]
     g.order = gs.get("order", 2)
     g.weight = fnum(gs.get("weight", 1))
-    g.function_nominal = fnum(gs.get("nominal", 1))
+    if not gs.get("state"):
+        g.function_nominal = fnum(gs.get("nominal", 1))
     g.relaxation = fnum(gs.get("relax", 0))
     g.critical = gs.get("critical", False)
-    if gs.get("fk"):
+    if gs.get("fk") and not gs.get("state"):
         g.function_key = gs["fk"]
 
     def tgt(v):
@@ -91,7 +120,7 @@ def make_goal(gs, times):
 
     g.target_min = tgt(gs.get("tmin"))
     g.target_max = tgt(gs.get("tmax"))
-    if gs.get("tmin") is not None or gs.get("tmax") is not None:
+    if (gs.get("tmin") is not None or gs.get("tmax") is not None) and not gs.get("state"):
         if not g.critical or gs.get("range_on_critical"):
             g.function_range = tuple(fnum(x) for x in gs.get("range", FRANGE[fn]))
     g._spec = gs
@@ -109,7 +138,7 @@ def build(case, extra_mixins=(), solver=None, qp=None, expand=None, map_mode=Non
     Base = problems.make_base(spec_for(case), tuple(extra_mixins) + (mix,))
     times = case["times"]
     snaps = []
-    goals_all = [make_goal(gs, times) for gs in case["goals"]]
+    goals_all = []
 
     class P(Base):
         if not variant.startswith("multi"):
@@ -171,7 +200,7 @@ def build(case, extra_mixins=(), solver=None, qp=None, expand=None, map_mode=Non
                    for m in range(self.ensemble_size)]
             tp = self.transcribed_problem
             nx_ = tp["nlp"]["x"].shape[0]
-            names_ = ["u", "v", "y", "z"] + [v.name() for v in list(self.path_variables) + list(self.extra_variables)]
+            names_ = ["u", "v", "y", "z"] + (["w"] if case.get("free_alg") else []) + [v.name() for v in list(self.path_variables) + list(self.extra_variables)]
             fidx = ca.Function("idx", [self.solver_input],
                                [ca.vertcat(*[self.state_vector(v, m) for m in range(self.ensemble_size) for v in names_])])
             flat = [int(round(float(x))) for x in np.array(fidx(ca.DM(list(range(nx_))))).ravel()]
@@ -190,7 +219,9 @@ def build(case, extra_mixins=(), solver=None, qp=None, expand=None, map_mode=Non
             if snaps:
                 snaps[-1]["stores_after"] = read_stores(self, variant)
 
-    return P(), snaps, goals_all
+    p = P()
+    goals_all[:] = [make_goal(gs, times, p) for gs in case["goals"]]
+    return p, snaps, goals_all
 
 
 def read_stores(p, variant):
